@@ -290,3 +290,85 @@ MUTANTS = {
         m("new-executor-unlocked", "redun/executors/alias.py", "@register_executor(\"alias\")\nclass AliasExecutor(Executor):", "import threading\n\n\nclass PollingExecutor(Executor):\n    def __init__(self):\n        self.is_running = False\n        self.pending = {}\n        self._thread = None\n\n    def _start(self):\n        if not self.is_running:\n            self.is_running = True\n            self._thread = threading.Thread(target=self._monitor)\n            self._thread.start()\n\n    def _monitor(self):\n        try:\n            while self.is_running and self.pending:\n                pass\n        except Exception as error:\n            self._scheduler.reject_job(None, error)\n        self.is_running = False\n\n\n@register_executor(\"alias\")\nclass AliasExecutor(Executor):", None),
     ],
 }
+
+
+def _add(prop, *ms):
+    MUTANTS.setdefault(prop, []).extend(ms)
+
+
+# ---- mutants for the rules added after the second seeding round ----
+_add(
+    "C16",
+    m("set-hash-honours-data", V, "        # Sort the set to ensure stable serialization and hashing.\n        bytes = pickle_dumps(sorted(self.instance))\n\n        # Use a unique tag to distinguish from hashing a list.\n        return hash_tag_bytes(\"Value.set\", bytes)", "        if data is None:\n            data = pickle_dumps(sorted(self.instance))\n        return hash_tag_bytes(\"Value.set\", data)", "C16.4"),
+    m("filecache-hash-from-reference", V, "        return super().get_hash()\n\n    def _serialize(self) -> bytes:", "        return super().get_hash(data)\n\n    def _serialize(self) -> bytes:", "C16.4"),
+)
+_add(
+    "C21",
+    m("simple-setstate-drops-upstreams", E, "        self.kwargs = registry.deserialize(\"builtins.dict\", state[\"kwargs\"])\n        self._upstreams = [self.args, self.kwargs]\n\n    def is_valid", "        self.kwargs = registry.deserialize(\"builtins.dict\", state[\"kwargs\"])\n\n    def is_valid", "C21.4"),
+    m("task-setstate-upstreams-args-only", E, "        self._upstreams = [self.args, self.kwargs]\n        self._length = state.get(\"length\", None)", "        self._upstreams = [self.args]\n        self._length = state.get(\"length\", None)", "C21.4"),
+)
+_add(
+    "C23",
+    m("walker-inner-join", D, "    ).outerjoin(ArgumentResult)\n    seen_args = set()", "    ).join(ArgumentResult)\n    seen_args = set()", "C23.5"),
+    m("walker-limits-subvalues", D, "        session.query(Subvalue.value_hash), Subvalue.parent_value_hash, ids\n    ):", "        session.query(Subvalue.value_hash).limit(1000), Subvalue.parent_value_hash, ids\n    ):", "C23.5"),
+    m("walker-conditional-yield", D, "    for (child_id,) in filter_in(session.query(CallEdge.child_id), CallEdge.parent_id, ids):\n        yield \"CallNode.child_call_node\", CallNode, child_id", "    for (child_id,) in filter_in(session.query(CallEdge.child_id), CallEdge.parent_id, ids):\n        if child_id not in ids:\n            yield \"CallNode.child_call_node\", CallNode, child_id", "C23.5"),
+)
+_add(
+    "C26",
+    m("jobenv-eq-by-job", S, "    def get_context(self) -> dict:\n        return self._env_context\n", "    def get_context(self) -> dict:\n        return self._env_context\n\n    def __eq__(self, other):\n        return getattr(other, \"job\", other) is self.job\n\n    def __hash__(self):\n        return id(self.job)\n", "C26.5"),
+    m("pending-expr-keyed-by-real-job", S, "        self._pending_expr[parent_job][expr.get_hash()] = (promise, expr)", "        self._pending_expr[getattr(parent_job, \"job\", parent_job)][expr.get_hash()] = (promise, expr)", "C26.5"),
+)
+_add(
+    "C27",
+    m("export-own-names-only-when-present", S, "        if parent_job:\n            self.export_options |= parent_job.export_options", "        if parent_job and not self.export_options:\n            self.export_options |= parent_job.export_options", "C27.3"),
+    m("export-intersection", S, "            self.export_options |= parent_job.export_options", "            self.export_options &= parent_job.export_options", "C27.3"),
+)
+_add(
+    "C28",
+    m("dryrun-cache-scope", S, "        allowed_cache_results = job.get_option(\"allowed_cache_results\", None)\n        assert allowed_cache_results is None", "        if self._dryrun:\n            cache_scope = CacheScope.BACKEND\n        allowed_cache_results = job.get_option(\"allowed_cache_results\", None)\n        assert allowed_cache_results is None", "C28.4"),
+    m("dryrun-skips-validity", S, "        elif self._is_valid_value(result):\n            # Result must still be valid to use.", "        elif self._dryrun or self._is_valid_value(result):\n            # Result must still be valid to use.", "C28.4"),
+)
+_add(
+    "C10",
+    m("num-pending-decrement-hoisted", JA, "            jobs = self.pending.pop(descr)\n            timestamp = self.pending_timestamps.pop(descr)\n", "            jobs = self.pending.pop(descr)\n            timestamp = self.pending_timestamps.pop(descr)\n            self.num_pending -= len(jobs)\n", "C10.4"),
+)
+_add(
+    "C11",
+    m("remainder-off-by-one", JA, "            remainder = jobs[self.max_array_size :]", "            remainder = jobs[self.max_array_size + 1 :]", "C11.2"),
+    m("batch-then-singles", JA, "        else:\n            self._submit_jobs(jobs)\n\n        with self._lock:\n            self.num_pending -= len(jobs)", "        else:\n            self._submit_jobs(jobs)\n            self._submit_jobs(jobs[:1])\n\n        with self._lock:\n            self.num_pending -= len(jobs)", "C11.2"),
+)
+_add(
+    "C22",
+    m("rollback-handle-uncommitted", D, "        # Make the invalidation durable now. Left pending, it would be discarded by the rollback\n        # that `db_retry` performs when a later backend call hits a transient error.\n        self.session.commit()\n", "", "C22.5"),
+    m("job-start-commit-only-for-root", D, "            self.session.add(db_job)\n            self.session.commit()", "            self.session.add(db_job)\n            if not job.parent_job:\n                self.session.commit()", "C22.5"),
+)
+_add(
+    "C30",
+    m("stat-catches-filenotfound-only", F, "        if self.exists(path):\n            stat = os.stat(path)\n            mtime = stat.st_mtime\n            size = stat.st_size\n        else:\n            mtime = -1\n            size = -1", "        try:\n            stat = os.stat(path)\n            mtime = stat.st_mtime\n            size = stat.st_size\n        except FileNotFoundError:\n            mtime = -1\n            size = -1", "C30.2"),
+)
+_add(
+    "C31",
+    m("existing-row-returns-before-offload", D, "        value_format = value_interface.get_serialization_format()\n\n        if self.value_store and", "        value_format = value_interface.get_serialization_format()\n\n        if self.session.get(Value, value_hash) is not None:\n            return value_hash\n\n        if self.value_store and", "C31.5"),
+)
+_add(
+    "C32",
+    m("remove-only-when-cached-mode", CLI, "            if output_path:\n                output_file = BaseFile(output_path)\n                if not args.no_cache and output_file.exists():", "            if output_path and not args.no_cache:\n                output_file = BaseFile(output_path)\n                if output_file.exists():", "C32.5"),
+    m("remove-dropped", CLI, "                # Remove previous output if it exists to avoid reporting stale information.\n                output_file.remove()\n", "", "C32.5"),
+)
+_add(
+    "C33",
+    m("failed-term-named-and-narrowed", Q, "        elif status == \"FAILED\":\n            return Value.type == REDUN_ERROR_TYPE_NAME", "        elif status == \"FAILED\":\n            is_error = Value.type == REDUN_ERROR_TYPE_NAME\n            fresh = Job.cached.is_(False)\n            return fresh & is_error", "C33.1"),
+)
+_add(
+    "C36",
+    m("backfill-merge", "redun/backends/db/alembic/versions/30ffbaee18cd_add_task_version_and_backfill_companion_values.py", "        session.add(\n            db.Value(", "        session.merge(\n            db.Value(", "C36.2"),
+)
+_add(
+    "C37",
+    m("rename-moves-key-directly", T, "        task.namespace = new_namespace\n        task.name = new_name\n        self.add(task)\n        return task", "        task.namespace = new_namespace\n        task.name = new_name\n        self._tasks[task.fullname] = task\n        self._task_hash_counts[task.hash] += 1\n        return task", "C37.1"),
+)
+_add(
+    "C38",
+    m("new-execution-drops-cache-setting", S, "        result = sub_scheduler.run(expr_eval, execution_id=execution_id, **run_config)", "        result = sub_scheduler.run(expr_eval, execution_id=execution_id, dryrun=run_config[\"dryrun\"], context=run_config[\"context\"])", "C38.4"),
+    m("run-config-cache-constant", S, "        \"cache\": scheduler._use_cache,", "        \"cache\": True,", "C38.4"),
+)
